@@ -756,7 +756,7 @@ func init() {
 		},
 		extra: nodeExtra,
 	})
-	addKind(&kind{name: "proofwithkey", weight: 1, maxCount: 1 << 22,
+	addKind(&kind{name: "proofwithkey", weight: 1,
 		guard: func(b []byte) uint64 {
 			// Key = ReadVarBytes(); sz = ReadVarUint(); "for range sz { append(ReadVarBytes()) }" has no error exit.
 			kl, ksz, ok := readVarRef(b, 0)
